@@ -112,6 +112,16 @@ func (c *descCtx) d(v ssa.Value) string {
 					delete(c.visited, sv)
 					return s
 				}
+				// `if err = f(); err != nil` on a cell (captured or defer-spilled
+				// variable): the load directly after the store, in the same block
+				// with nothing in between that could write the cell, reads the
+				// stored value
+				if sv := blockForwardedStore(x, a); sv != nil && !c.visited[sv] {
+					c.visited[sv] = true
+					s := c.d(sv)
+					delete(c.visited, sv)
+					return s
+				}
 			}
 			if fv, ok := x.X.(*ssa.FreeVar); ok {
 				if b := p.freeVarBinding(fv); b != nil {
@@ -737,4 +747,40 @@ func thinMethodLiteral(fn *ssa.Function) *ssa.Function {
 		return nil
 	}
 	return g
+}
+
+// blockForwardedStore returns the value stored into cell a by the nearest
+// preceding store in the load's own block, provided no call, send, or other
+// store through a pointer lies between the two (nothing that could write the
+// cell).
+func blockForwardedStore(ld *ssa.UnOp, a *ssa.Alloc) ssa.Value {
+	b := ld.Block()
+	if b == nil {
+		return nil
+	}
+	pos := -1
+	for i, in := range b.Instrs {
+		if in == ssa.Instruction(ld) {
+			pos = i
+			break
+		}
+	}
+	for i := pos - 1; i >= 0; i-- {
+		switch x := b.Instrs[i].(type) {
+		case *ssa.Store:
+			if x.Addr == ssa.Value(a) {
+				return x.Val
+			}
+			if _, isAlloc := x.Addr.(*ssa.Alloc); !isAlloc {
+				if _, isFA := x.Addr.(*ssa.FieldAddr); !isFA {
+					return nil
+				}
+			}
+		case ssa.CallInstruction:
+			return nil
+		case *ssa.Send, *ssa.Select, *ssa.MapUpdate:
+			return nil
+		}
+	}
+	return nil
 }
